@@ -357,8 +357,10 @@ func (x *runner) roundtrip(t *Ty, rv reflect.Value, note string) {
 			default:
 				clearBodies(t, out)
 				if !reflect.DeepEqual(want.Interface(), out.Interface()) {
-					if tmpl && leadingBOM(t, rv) {
-						// hclsyntax.ParseTemplate strips a leading U+FEFF of the JSON string
+					nBOM := 0
+					if tmpl && leadingBOM(t, rv) && equalModuloLeadingBOM(t, want, out, false, &nBOM) && nBOM > 0 {
+						// hclsyntax.ParseTemplate strips a leading U+FEFF of the JSON string: known only when
+						// the lost byte order marks of template-evaluated strings are the ONLY difference
 						x.fail("json-template-leading-bom", "ctx != nil: "+diffPath(t, want, out, "v")+"\n"+jsrc, sp)
 					} else {
 						x.fail("json-decode-differs", diffPath(t, want, out, "v")+"\n"+jsrc, sp)
